@@ -63,7 +63,11 @@ RULE = ("generated importable module: interface DAG of 1..5 interfaces (<= 2 bas
         "one class is a built-in type (complex, frozenset, bytearray, slice, range, memoryview; its declarations are "
         "dropped from BuiltinImplementationSpecifications before and after the case); instance declarations "
         "often name an interface the class already implies (40%) or nothing at all (directlyProvides(ob), "
-        "noLongerProvides down to empty); a quarter of the argument "
+        "noLongerProvides down to empty); 30% of the cases give some classes a metaclass that makes the "
+        "class object falsy (__len__ -> 0 or __bool__ -> False, inherited by subclasses), 25% declare a class "
+        "old-style (`__implemented__ = I` in the body), 20% of the interfaces are created by a class statement "
+        "inside a function or another class body and 15% of the classes inside another class body, all "
+        "published as module globals; a quarter of the argument "
         "lists pass a slice wrapped in a Declaration(...); every interface, class, class "
         "specification, class provides, instance provides and instance round-tripped with protocols 0..5 in the "
         "same process and into a fresh process; a case is non-trivial when some class specification or "
@@ -212,7 +216,23 @@ def _gen_case(rng, force=None):
         ops = cops + iops
         rng.shuffle(ops)
     ops += [["iby", c] for c in range(nc)]
-    return {"ifaces": ifaces, "classes": classes, "insts": insts, "ops": ops, "builtin": builtin}
+    case = {"ifaces": ifaces, "classes": classes, "insts": insts, "ops": ops, "builtin": builtin}
+    # class objects that are falsy (metaclass __len__ -> 0 / __bool__ -> False), inherited by subclasses
+    if plain and rng.random() < 0.3:
+        case["falsy"] = rng.choice(["len", "bool"])
+        case["meta"] = sorted(rng.sample(plain, rng.randint(1, min(2, len(plain)))))
+    # old-style `__implemented__ = I` / `= (I, J)` in a class body
+    if plain and rng.random() < 0.25:
+        k = rng.randint(1, min(2, ni))
+        case["oldstyle"] = {str(rng.choice(plain)): rng.sample(range(ni), k)}
+    # class statements that run inside a function / inside another class body, published at module level
+    idef = {str(i): rng.choice(["func", "func", "nested"]) for i in range(ni) if rng.random() < 0.2}
+    cdef = {str(c): "nested" for c in plain if rng.random() < 0.15}
+    if idef:
+        case["idef"] = idef
+    if cdef:
+        case["cdef"] = cdef
+    return case
 
 
 def generate(run, tier):
@@ -261,6 +281,28 @@ def generate(run, tier):
     ):
         ops = [list(o) for o in shape] + [["iby", 0], ["iby", 1]]
         cases.append(dict(rbase, ops=ops))
+    # falsy class objects under every declaration shape (inherited, additive, only, first, old-style),
+    # interfaces and classes whose class statement ran in a function / another class body
+    fbase = {"ifaces": [[], [0], [], [1, 2]], "classes": [[], [0], [0], [2, 1], []], "insts": [[1, [1]], [3, []], [4, [2]]],
+             "builtin": {}}
+    for falsy, shape, extra in (
+        ("len", [["impl", 0, [1], True], ["only", 1, [2], True], ["first", 2, 3], ["only", 4, [0], False]],
+         {"meta": [0, 4]}),
+        ("bool", [["only", 0, [], False], ["only", 3, [3], True], ["impl", 4, [2], False], ["cprov", 1, [0], True]],
+         {"meta": [0, 4], "oldstyle": {"4": [1]}}),
+        ("len", [["impl", 2, [0], False], ["cap", 4, [2], False], ["first", 4, 0]],
+         {"meta": [4, 1], "oldstyle": {"4": [2, 0]}, "cdef": {"4": "nested", "1": "nested"}}),
+        ("bool", [["impl", 1, [3], True], ["only", 2, [1], False]],
+         {"meta": [2], "oldstyle": {"0": [2]}, "idef": {"0": "func", "3": "func", "2": "nested"}, "cdef": {"3": "nested"}}),
+        (None, [["impl", 0, [1], True], ["cprov", 2, [3, 0], False], ["only", 1, [2], True]],
+         {"idef": {"1": "func", "2": "func", "3": "nested"}, "cdef": {"0": "nested", "2": "nested"}}),
+    ):
+        ops = [list(o) for o in shape] + [["dp", 0, [0, 2]], ["ap", 1, [1]], ["dp", 2, [3]], ["gc"], ["ap", 2, [0]]]
+        ops += [["iby", c] for c in range(5)]
+        case = dict(fbase, ops=ops, **extra)
+        if falsy:
+            case["falsy"] = falsy
+        cases.append(case)
     for k in range(n):
         cases.append(_gen_case(rng, force="only" if k % 4 == 0 else None))
     return cases
@@ -353,14 +395,18 @@ def _obs_groups(obs_list):
 def coq_case(case, obs, mode):
     if "items" not in obs:
         # the case could not be built at all: an empty observation list fails both checks
-        world = "(mkWorld [] [] [] [])"
+        world = "(mkWorld [] [] [] [] [] [])"
         return "(%s, [], [mkItem (ItIface 0) RNone [] [] [] []])" % world
     names = obs["names"]
     world = "(mkWorld %s %s %s)" % (
         C.clist(["(%s, %s)" % (_gname(nm), _lnat(bs)) for nm, bs in zip(names["inames"], case["ifaces"])]),
         C.clist(["(%s, %s)" % (_gname(nm), _lnat(bs)) for nm, bs in zip(names["cnames"], case["classes"])]),
         C.clist(["(%d, %s)" % (cl, C.clist([C.cZ(v) for v in attrs])) for cl, attrs in case["insts"]])
-        + " " + _lnat(sorted(int(c) for c in case.get("builtin", {}))))
+        + " " + _lnat(sorted(int(c) for c in case.get("builtin", {})))
+        + " " + C.clist(["(%d, %s)" % (c, _gname(nm)) for c, nm in sorted(
+            (int(c), nm) for c, nm in names.get("metas", {}).items())])
+        + " " + C.clist(["(%d, %s)" % (int(c), _lnat(xs)) for c, xs in sorted(
+            case.get("oldstyle", {}).items(), key=lambda kv: int(kv[0]))]))
     ops = C.clist([_op(o) for o in case["ops"]])
     items = []
     for rec in obs["items"]:
@@ -400,6 +446,12 @@ def _tags(case, obs):
             tags.add("interleaved")
     if any(len(bs) > 1 for bs in case["classes"]):
         tags.add("multi-inherit")
+    if case.get("falsy"):
+        tags.add("falsy-" + case["falsy"])
+    if case.get("oldstyle"):
+        tags.add("oldstyle")
+    if case.get("idef") or case.get("cdef"):
+        tags.add("local-def")
     return tags
 
 
